@@ -100,6 +100,42 @@ impl AsyncWrite for SimOut {
     }
 }
 
+/// Wraps the main loop future so that the simulator can see whether it has been woken since it
+/// was last polled (tokio parks the thread through `before_park` even when a wake is pending).
+struct RootFlag {
+    woken: Arc<std::sync::atomic::AtomicBool>,
+    inner: Mutex<Option<Waker>>,
+}
+
+impl std::task::Wake for RootFlag {
+    fn wake(self: Arc<Self>) {
+        self.wake_by_ref();
+    }
+    fn wake_by_ref(self: &Arc<Self>) {
+        self.woken.store(true, std::sync::atomic::Ordering::SeqCst);
+        let w = self.inner.lock().unwrap().clone();
+        if let Some(w) = w {
+            w.wake();
+        }
+    }
+}
+
+struct Root<F> {
+    inner: Pin<Box<F>>,
+    flag: Arc<RootFlag>,
+}
+
+impl<F: std::future::Future> std::future::Future for Root<F> {
+    type Output = F::Output;
+    fn poll(mut self: Pin<&mut Self>, cx: &mut Context<'_>) -> Poll<F::Output> {
+        self.flag.woken.store(false, std::sync::atomic::Ordering::SeqCst);
+        *self.flag.inner.lock().unwrap() = Some(cx.waker().clone());
+        let w = Waker::from(self.flag.clone());
+        let mut cx2 = Context::from_waker(&w);
+        self.inner.as_mut().poll(&mut cx2)
+    }
+}
+
 pub fn frame(msg: &Value) -> Vec<u8> {
     let body = serde_json::to_vec(msg).unwrap();
     let mut v = format!("Content-Length: {}\r\n\r\n", body.len()).into_bytes();
@@ -384,6 +420,12 @@ pub struct History {
     pub degraded_free_run: bool,
     pub deadlock: Option<String>,
     pub poisoned: bool,
+    /// The main loop thread was left asleep in its runtime (harmless for later runs).
+    pub leaked_main: bool,
+    /// Bytes the client had handed over that the main loop never read.
+    pub unread_input: usize,
+    /// Where the main loop thread stood when the run ended ("idle", "apply:begin", ...).
+    pub main_final: String,
     pub steps: u64,
     pub contended: u64,
     pub trace_hash: u64,
@@ -489,7 +531,7 @@ pub fn run_session(s: &Session, keep_log: bool) -> History {
             .stack_size(32 << 20)
             .spawn(move || {
                 hashseed::set_domain(7);
-                let _ident = hooks::enter(m);
+                let _ident = hooks::enter(core.ident(m));
                 let r = catch_unwind(AssertUnwindSafe(|| {
                     let core2 = core.clone();
                     let rt = tokio::runtime::Builder::new_current_thread()
@@ -502,6 +544,9 @@ pub fn run_session(s: &Session, keep_log: bool) -> History {
                         .expect("runtime");
                     let (fut, probe) = glas::verif::server_with(SimIn(pipe.clone()), SimOut(pipe.clone()), concurrency);
                     let _ = probe_tx.send(probe);
+                    let woken = Arc::new(std::sync::atomic::AtomicBool::new(true));
+                    core.with(|st| st.root_woken = Some(woken.clone()));
+                    let fut = Root { inner: Box::pin(fut), flag: Arc::new(RootFlag { woken, inner: Mutex::new(None) }) };
                     let r = rt.block_on(fut);
                     drop(rt);
                     r
@@ -668,6 +713,12 @@ pub fn run_session(s: &Session, keep_log: bool) -> History {
     }
 
     // ---- teardown
+    h.unread_input = pipe.unread_input();
+    h.main_final = core.with(|st| {
+        let t = &st.threads[&m];
+        format!("{:?}@{}", t.status, t.point.as_ref().map_or("-", |p| p.kind.label()))
+    });
+    let others_done = core.with(|st| st.threads.iter().all(|(id, t)| *id == m || t.status == Status::Done));
     let alive = h.server_exit.is_none();
     if alive && h.stall.is_none() && h.deadlock.is_none() {
         closed_by_harness = true;
@@ -675,12 +726,18 @@ pub fn run_session(s: &Session, keep_log: bool) -> History {
     pipe.close_input();
     core.free_run();
     pipe.wake();
-    let drained = core.wait_all_done(Duration::from_secs(if h.stall.is_some() || h.deadlock.is_some() { 20 } else { 30 }));
+    let patience = if h.main_final == "Parked@idle" && h.unread_input > 0 && h.stall.is_none() {
+        // the main loop has stopped reading; end of input will not reach it either
+        2
+    } else {
+        20
+    };
+    let drained = core.wait_all_done(Duration::from_millis(if patience == 2 { 300 } else { 20_000 }));
     if !drained {
         // a second nudge: the main loop may have parked between close and wake
         pipe.wake();
     }
-    let drained = drained || core.wait_all_done(Duration::from_secs(5));
+    let drained = drained || core.wait_all_done(Duration::from_millis(if patience == 2 { 300 } else { 5_000 }));
     hooks::install(None);
     if drained {
         let _ = m_join.join();
@@ -692,9 +749,16 @@ pub fn run_session(s: &Session, keep_log: bool) -> History {
             h.deadlock = None;
         }
     } else {
-        h.poisoned = true;
+        // The main loop does not come back even on end of input. If it is merely asleep in its
+        // runtime (everything else finished), the thread can stay behind without harm.
+        let only_main = core.with(|st| st.threads.iter().all(|(id, t)| *id == m || t.status == Status::Done));
+        if only_main && others_done && h.main_final == "Parked@idle" {
+            h.leaked_main = true;
+        } else {
+            h.poisoned = true;
+        }
         if h.deadlock.is_none() {
-            h.deadlock = Some(h.stall.clone().unwrap_or_else(|| "server does not drain after end of input".into()));
+            h.deadlock = Some(h.stall.clone().unwrap_or_else(|| format!("the main loop ({}) does not end on end of input; {} bytes of input unread", h.main_final, h.unread_input)));
         }
     }
     let _ = closed_by_harness;
